@@ -696,6 +696,8 @@ pub struct BatchRec {
     pub ret: u64,
     pub out: Out,
     pub rem: Option<Vec<Id>>,
+    /// how the processor expressed its `Err` (index into `VIA_RETRY` / `VIA_NO_RETRY`; 0 = built directly)
+    pub via: u8,
 }
 
 #[derive(Clone, Copy, Debug, PartialEq, Eq)]
@@ -1259,6 +1261,9 @@ pub struct Processor {
     script: Vec<Step>,
     calls: usize,
     g: Rng,
+    /// own stream for the way an `Err` is expressed (never touches the plan's streams)
+    gx: Rng,
+    express: bool,
     pub recs: Vec<BatchRec>,
     pub waits: Vec<(u64, u64)>,
 }
@@ -1269,6 +1274,8 @@ impl Processor {
             script: plan.proc.clone(),
             calls: 0,
             g: Rng::stream(plan.seed, &[78, plan.case]),
+            gx: Rng::stream(plan.seed, &[79, plan.case]),
+            express: EXPRESS.load(std::sync::atomic::Ordering::Relaxed),
             recs: Vec::new(),
             waits: Vec::new(),
         }))
@@ -1301,6 +1308,118 @@ pub struct Finish {
     idx: usize,
     step: Step,
     rem: Option<Vec<Id>>,
+    via: u8,
+    /// the items of this call (only kept when the error is derived from an inner one)
+    items: Vec<Id>,
+}
+
+/// The inner failure a layered processor starts from.
+#[derive(Debug)]
+pub struct TransportErr;
+
+impl fmt::Display for TransportErr {
+    fn fmt(&self, f: &mut fmt::Formatter) -> fmt::Result {
+        f.write_str("scripted transport failure")
+    }
+}
+
+impl std::error::Error for TransportErr {}
+
+static EXPRESS: std::sync::atomic::AtomicBool = std::sync::atomic::AtomicBool::new(false);
+
+/// C06 only: scripted processors derive their `Err` from an inner "transport" error through the public
+/// `BatchError` combinators (seeded choice per call, own stream) instead of always building it directly.
+pub fn set_express_through_combinators(on: bool) {
+    EXPRESS.store(on, std::sync::atomic::Ordering::Relaxed);
+}
+
+/// (expressed-through, from) of the ways to end up with `Err(retry(R))`
+pub const VIA_RETRY: [(&str, &str); 9] = [
+    ("direct", "retry"),
+    ("map_retryable", "no_retry"),
+    ("map_retryable", "retry-of-the-whole-batch"),
+    ("map_retryable", "retry-of-unit"),
+    ("map_retryable-twice", "retry-of-the-whole-batch"),
+    ("map_retryable-twice", "retry-dropped-then-restored"),
+    ("try_into_retryable", "retry-of-the-whole-batch"),
+    ("try_into_retryable", "no_retry"),
+    ("into_retryable", "retry-of-the-whole-batch"),
+];
+
+/// … and of the ways to end up with a non-retryable `Err`
+pub const VIA_NO_RETRY: [(&str, &str); 6] = [
+    ("direct", "no_retry"),
+    ("map_retryable", "retry-mapped-to-none"),
+    ("map_retryable", "no_retry-kept"),
+    ("map_retryable-twice", "retry-of-unit-mapped-to-none"),
+    ("try_into_retryable", "no_retry"),
+    ("into_retryable", "no_retry"),
+];
+
+pub fn via_suffix(b: &BatchRec) -> String {
+    let t = match b.out {
+        Out::Retry => VIA_RETRY.get(b.via as usize),
+        Out::NoRetry => VIA_NO_RETRY.get(b.via as usize),
+        _ => None,
+    };
+    match t {
+        Some((via, from)) if b.via != 0 => format!(":expressed-through={}:from={}", via, from),
+        _ => String::new(),
+    }
+}
+
+/// keep of `v` what is in `keep` (in `v`'s order): how a layer trims the inner remainder
+fn trim(v: Vec<Id>, keep: &[Id]) -> Vec<Id> {
+    let k: HashSet<Id> = keep.iter().copied().collect();
+    v.into_iter().filter(|i| k.contains(i)).collect()
+}
+
+fn express_retry(via: u8, items: Vec<Id>, rem: Vec<Id>) -> BatchError<Q> {
+    match via {
+        // the docs allow upgrading a non-retryable inner error
+        1 => BatchError::<()>::no_retry(TransportErr).map_retryable(|_| Some(Q::from_items(rem))),
+        2 => BatchError::retry(TransportErr, Q::from_items(items)).map_retryable(|c| c.map(|mut q| Q::from_items(trim(std::mem::take(&mut q.items), &rem)))),
+        3 => BatchError::retry(TransportErr, ()).map_retryable(|c| c.map(|()| Q::from_items(rem))),
+        4 => BatchError::retry(TransportErr, items).map_retryable(|c| c.map(|v| trim(v, &rem))).map_retryable(|c| c.map(Q::from_items)),
+        5 => BatchError::retry(TransportErr, Q::from_items(items)).map_retryable(|_| None::<()>).map_retryable(|c| match c {
+            None => Some(Q::from_items(rem)),
+            // the layer below still claims something: pass nothing on
+            Some(()) => None,
+        }),
+        6 => match BatchError::retry(TransportErr, items).try_into_retryable() {
+            Ok(v) => BatchError::retry(TransportErr, Q::from_items(trim(v, &rem))),
+            Err(e) => e.map_retryable(|c| c.map(Q::from_items)),
+        },
+        7 => match BatchError::<Vec<Id>>::no_retry(TransportErr).try_into_retryable() {
+            Ok(v) => BatchError::retry(TransportErr, Q::from_items(v)),
+            Err(e) => e.map_retryable(|c| match c {
+                None => Some(Q::from_items(rem)),
+                Some(v) => Some(Q::from_items(v)),
+            }),
+        },
+        8 => match BatchError::retry(TransportErr, items).into_retryable() {
+            Some(v) => BatchError::retry(TransportErr, Q::from_items(trim(v, &rem))),
+            None => BatchError::no_retry(TransportErr),
+        },
+        _ => BatchError::retry(ProcErr, Q::from_items(rem)),
+    }
+}
+
+fn express_no_retry(via: u8, items: Vec<Id>) -> BatchError<Q> {
+    match via {
+        1 => BatchError::retry(TransportErr, Q::from_items(items)).map_retryable(|_| None),
+        2 => BatchError::<()>::no_retry(TransportErr).map_retryable(|c| c.map(|()| Q::from_items(items))),
+        3 => BatchError::retry(TransportErr, ()).map_retryable(|_| None::<()>).map_retryable(|c| c.map(|()| Q::from_items(items))),
+        4 => match BatchError::<Q>::no_retry(TransportErr).try_into_retryable() {
+            Ok(q) => BatchError::retry(TransportErr, q),
+            Err(e) => e.map_retryable(|c| c),
+        },
+        5 => match BatchError::<Q>::no_retry(TransportErr).into_retryable() {
+            Some(q) => BatchError::retry(TransportErr, q),
+            None => BatchError::no_retry(TransportErr),
+        },
+        _ => BatchError::no_retry(ProcErr),
+    }
 }
 
 impl Finish {
@@ -1329,8 +1448,8 @@ impl Finish {
         }
         match self.step.out {
             Outcome::Ok => Ok(()),
-            Outcome::NoRetry => Err(BatchError::no_retry(ProcErr)),
-            Outcome::Retry(_) => Err(BatchError::retry(ProcErr, Q::from_items(self.rem.unwrap_or_default()))),
+            Outcome::NoRetry => Err(express_no_retry(self.via, self.items)),
+            Outcome::Retry(_) => Err(express_retry(self.via, self.items, self.rem.unwrap_or_default())),
             Outcome::Panic | Outcome::PanicFut => quiet(|| -> Result<(), BatchError<Q>> { panic!("scripted processor panic") }),
         }
     }
@@ -1347,9 +1466,15 @@ fn begin_batch(proc: &Arc<Mutex<Processor>>, mut batch: Q) -> Finish {
         Outcome::Retry(r) => Some(p.remainder(&items, r)),
         _ => None,
     };
-    p.recs.push(BatchRec { items, cleared, call, ret: 0, out: Out::Unfinished, rem: rem.clone() });
+    let via = match step.out {
+        Outcome::Retry(_) if p.express && p.gx.chance(2, 3) => p.gx.range(1, VIA_RETRY.len() as u64 - 1) as u8,
+        Outcome::NoRetry if p.express && p.gx.chance(2, 3) => p.gx.range(1, VIA_NO_RETRY.len() as u64 - 1) as u8,
+        _ => 0,
+    };
+    let kept = if via != 0 { items.clone() } else { Vec::new() };
+    p.recs.push(BatchRec { items, cleared, call, ret: 0, out: Out::Unfinished, rem: rem.clone(), via });
     let idx = p.recs.len() - 1;
-    Finish { proc: proc.clone(), idx, step, rem }
+    Finish { proc: proc.clone(), idx, step, rem, via, items: kept }
 }
 
 pub struct ProcFut {
@@ -2580,10 +2705,24 @@ fn note_expired_quiescence(h: &History, r: &mut Report, prop: &str) {
 pub fn classify_attempts(h: &History, budget: Option<u32>) -> Attempts {
     let mut a = Attempts { first: Vec::new(), problems: Vec::new(), retried_chains: 0, exhausted_chains: 0 };
     let mut expect: Option<Vec<Id>> = None;
+    // how the attempt that asked for the pending retry expressed it ("" = built directly)
+    let mut expect_via = String::new();
+    // a non-retryable failure derived through the combinators: (call index, its items, suffix)
+    let mut refused: Option<(usize, HashSet<Id>, String)> = None;
     let mut chain_attempts = 0u32;
     let mut chain_items: HashSet<Id> = HashSet::new();
     for (k, b) in h.batches.iter().enumerate() {
         let mut first = true;
+        if let Some((k0, its, sfx)) = refused.take() {
+            let again: Vec<Id> = b.items.iter().copied().filter(|i| its.contains(i)).collect();
+            if !again.is_empty() {
+                a.problems.push((
+                    format!("C06:retry:re-delivered-after-a-non-retryable-failure{}", sfx),
+                    format!("on_batch call #{} was handed {} item(s) of call #{} again although that call failed with an error that carries no remainder", k, again.len(), k0),
+                    again,
+                ));
+            }
+        }
         if let Some(r) = expect.take() {
             if b.items == r {
                 first = false;
@@ -2609,13 +2748,13 @@ pub fn classify_attempts(h: &History, budget: Option<u32>) -> Attempts {
                     let mut ids = r.clone();
                     ids.extend(b.items.iter().copied());
                     a.problems.push((
-                        format!("C06:retry:not-the-remainder:{}", class),
+                        format!("C06:retry:not-the-remainder:{}{}", class, expect_via),
                         format!("on_batch call #{} was handed {} items after the processor asked for a retry of {} ({})", k, b.items.len(), r.len(), class),
                         ids,
                     ));
                 } else if !exhausted {
                     a.problems.push((
-                        "C06:retry:remainder-dropped".to_string(),
+                        format!("C06:retry:remainder-dropped{}", expect_via),
                         format!(
                             "the remainder of {} item(s) returned by attempt {} was never re-delivered (budget is {} retries); call #{} is a fresh batch",
                             r.len(),
@@ -2639,8 +2778,12 @@ pub fn classify_attempts(h: &History, budget: Option<u32>) -> Attempts {
             if let Some(r) = &b.rem {
                 if !r.is_empty() {
                     expect = Some(r.clone());
+                    expect_via = via_suffix(b);
                 }
             }
+        }
+        if b.out == Out::NoRetry && b.via != 0 {
+            refused = Some((k, b.items.iter().copied().collect(), via_suffix(b)));
         }
     }
     if let Some(r) = expect {
@@ -2649,7 +2792,7 @@ pub fn classify_attempts(h: &History, budget: Option<u32>) -> Attempts {
             a.exhausted_chains += 1;
         } else if !h.early_drop() && h.stuck.is_none() {
             a.problems.push((
-                "C06:retry:remainder-dropped".to_string(),
+                format!("C06:retry:remainder-dropped{}", expect_via),
                 format!("the receiver exited without re-delivering the remainder of {} item(s) returned by attempt {}", r.len(), chain_attempts),
                 r,
             ));
@@ -3114,7 +3257,7 @@ pub fn sample_json(h: &History) -> Json {
         ev.push((s.call, json!({"t": [s.call, s.ret], "actor": format!("sender{}", s.id.who), "op": format!("{:?}", s.kind), "item": s.id.j(), "accepted": s.accepted})));
     }
     for (k, b) in h.batches.iter().take(8).enumerate() {
-        ev.push((b.call, json!({"t": [b.call, b.ret], "actor": "receiver", "op": "on_batch", "call_index": k, "items": ids_json(&b.items), "outcome": format!("{:?}", b.out), "remainder": b.rem.as_ref().map(|x| ids_json(x))})));
+        ev.push((b.call, json!({"t": [b.call, b.ret], "actor": "receiver", "op": "on_batch", "call_index": k, "items": ids_json(&b.items), "outcome": format!("{:?}", b.out), "remainder": b.rem.as_ref().map(|x| ids_json(x)), "expressed": via_suffix(b)})));
     }
     for f in h.flushes.iter().take(6) {
         ev.push((f.req, json!({"t": [f.req, f.done], "actor": format!("flusher{}", f.who), "op": format!("{:?}", f.kind)})));
